@@ -3,6 +3,7 @@ package main
 import (
 	"fmt"
 	"go/token"
+	"go/types"
 
 	"golang.org/x/tools/go/ssa"
 )
@@ -188,6 +189,81 @@ var controlFns = map[string]func(c *ctl){
 		c.expect("BadRawCompare", hit["fixtures/fx.BadRawCompare"], true, "comparer discipline: bytes.Compare on keys")
 		c.expect("BadStringCompare", hit["fixtures/fx.BadStringCompare"], true, "comparer discipline: string(a) < string(b) on keys")
 		c.expect("GoodOrder", hit["fixtures/fx.GoodOrder"], false, "comparer discipline: no raw comparison")
+	},
+	"fresh": func(c *ctl) {
+		fc := newFresh(c.fx)
+		if f := c.fn("(*S).BadAlias"); f != nil {
+			ok, _ := fc.fnResultFresh(f, 0)
+			c.expect("(*S).BadAlias", !ok, true, "E-FLOW freshness: a getter returning a sub-slice of shared storage")
+		}
+		if f := c.fn("(*S).GoodCopy"); f != nil {
+			ok, _ := fc.fnResultFresh(f, 0)
+			c.expect("(*S).GoodCopy", !ok, false, "E-FLOW freshness: a getter returning append([]byte(nil), …)")
+		}
+	},
+	"flow": func(c *ctl) {
+		tc := newTaint(c.fx)
+		if f := c.fn("(*S).BadRetain"); f != nil {
+			c.expect("(*S).BadRetain", len(tc.analyzeParam(f, 1).issues) > 0, true, "E-FLOW taint: a parameter stored into a struct field")
+		}
+		if f := c.fn("(*S).BadScribble"); f != nil {
+			c.expect("(*S).BadScribble", len(tc.analyzeParam(f, 1).issues) > 0, true, "E-FLOW taint: a parameter written through")
+		}
+		if f := c.fn("(*S).GoodCopyIn"); f != nil {
+			c.expect("(*S).GoodCopyIn", len(tc.analyzeParam(f, 1).issues) > 0, false, "E-FLOW taint: a parameter only copied from")
+		}
+	},
+	"err": func(c *ctl) {
+		ds := droppedErrors(c.fx, []string{"fixtures/fx"})
+		hit := false
+		for _, d := range ds {
+			if fnName(d.fn) == "fixtures/fx.BadDroppedError" && d.callee == "fixtures/fx.syncIt" {
+				hit = true
+			}
+		}
+		c.expect("BadDroppedError", hit, true, "E-ERR: an unused error result is listed")
+		clean := true
+		for _, d := range ds {
+			if fnName(d.fn) == "fixtures/fx.GoodPublish" {
+				clean = false
+			}
+		}
+		c.expect("GoodPublish", !clean, false, "E-ERR: a tested error result is not listed")
+	},
+	"gby": func(c *ctl) {
+		tab := gbyTable{fields: []gbyField{{"fixtures/fx.S", "n", "fixtures/fx.S.mu"}}, requires: map[string][]string{}, exceptions: map[string]string{}}
+		sub := newReport("ctl", "quick", 0, "")
+		ruleGuardedBy(c.fx, sub, "ctl", "", []string{"fixtures/fx"}, tab, 0)
+		hit := map[string]bool{}
+		for _, o := range sub.Obls {
+			if o.Status == "violation" {
+				hit[o.Construct] = true
+			}
+		}
+		c.expect("(*S).BadUnguarded", hit["(*fixtures/fx.S).BadUnguarded"], true, "E-GBY: a guarded field written without its lock")
+		c.expect("(*S).GoodGuarded", hit["(*fixtures/fx.S).GoodGuarded"], false, "E-GBY: a guarded field written under its lock")
+	},
+	"exh": func(c *ctl) {
+		// exhaustiveness rules take their obligations from go/types method sets: the fixture type must list all its exported methods
+		sp := c.fx.ByRel["fixtures/fx"]
+		n := 0
+		if sp != nil {
+			if nm, ok := sp.Pkg.Scope().Lookup("S").Type().(*types.Named); ok {
+				for i := 0; i < nm.NumMethods(); i++ {
+					if nm.Method(i).Exported() {
+						n++
+					}
+				}
+			}
+		}
+		c.expect("S.methods", n >= 10, true, "E-EXH: the method set is enumerated from go/types")
+	},
+	"reach": func(c *ctl) {
+		a, b := c.fn("BadOrder"), c.fn("setMeta")
+		if a != nil && b != nil {
+			c.expect("reach(BadOrder→setMeta)", reachableFrom(c.fx.CG(), a)[b], true, "E-REACH: call-graph reachability")
+			c.expect("reach(setMeta→BadOrder)", reachableFrom(c.fx.CG(), b)[a], false, "E-REACH: call-graph reachability (negative)")
+		}
 	},
 	"chan": func(c *ctl) {
 		if f := c.fn("(*S).BadBlockingSend"); f != nil {
